@@ -5,3 +5,5 @@ import "math/big"
 type bigInt = big.Int
 
 func newBig() *big.Int { return new(big.Int) }
+
+func bigOf(v int64) *big.Int { return big.NewInt(v) }
